@@ -1563,6 +1563,16 @@ mod convert {
             self.program.generate_row();
         }
 
+        /// Check that an address offset read from the source program can be expressed
+        /// with the minimum instruction length.
+        fn check_address_offset(&self, address_offset: u64) -> ConvertResult<()> {
+            let min_inst_len = u64::from(self.program.line_encoding.minimum_instruction_length);
+            if min_inst_len > 1 && address_offset % min_inst_len != 0 {
+                return Err(ConvertError::InvalidAddress);
+            }
+            Ok(())
+        }
+
         /// Return the program and a mapping from source file index to `FileId`.
         ///
         /// The file index mapping is 0 based, regardless of the DWARF version.
@@ -1589,9 +1599,11 @@ mod convert {
                         self.set_address(address);
                     }
                     ConvertLineRow::Row(row) => {
+                        self.check_address_offset(row.address_offset)?;
                         self.generate_row(row);
                     }
                     ConvertLineRow::EndSequence(length) => {
+                        self.check_address_offset(length)?;
                         self.end_sequence(length);
                     }
                 }
